@@ -103,3 +103,19 @@ Proof.
   destruct (in_text_bounds _ _ _ H) as (n & c & Hl & Hc & Hn & Hcc).
   exists n, c. rewrite firstn_length in Hc. repeat split; try assumption; lia.
 Qed.
+
+(** [line_at] is the line that SourceMap.Add's own splitting (strings.Split on the line break) yields *)
+Lemma nth_split_aux s : forall cur n,
+  nth n (split_byte_aux 10 s cur) [] = match n with O => rev cur ++ line_at 0 s | S _ => line_at n s end.
+Proof.
+  induction s as [|x s IH]; intros cur n.
+  - cbn [split_byte_aux line_at]. destruct n as [|n]; [cbn; rewrite app_nil_r; reflexivity|destruct n; reflexivity].
+  - cbn [split_byte_aux line_at]. destruct (N.eqb_spec x 10) as [->|Hne].
+    + destruct n as [|n]; [cbn [nth]; rewrite app_nil_r; reflexivity|].
+      cbn [nth]. rewrite IH. destruct n; reflexivity.
+    + rewrite IH. destruct n as [|n]; [|reflexivity].
+      cbn [rev]. rewrite <- app_assoc. reflexivity.
+Qed.
+
+Theorem line_at_is_split_line n s : line_at n s = nth n (split_byte 10 s) [].
+Proof. unfold split_byte. rewrite nth_split_aux. destruct n; reflexivity. Qed.
